@@ -184,6 +184,7 @@ def wl_counting(ctx, rng, case):
     big = rng.random() < 0.12
     if big:
         ctx.count("counting_histories_with_amounts_at_the_cell_limits")
+    stats_every = rng.choice([1, 1, 2, 3, 4, 5])
     out = Counter()
     removes = 0
     eaten = 0  # counting Bloom only: amount taken out by requests larger than what the filter held for the key
@@ -239,7 +240,10 @@ def wl_counting(ctx, rng, case):
                   got=f.elements_added, want=total)
         ctx.count("counter_checks")
         if kind == "CountingBloomFilter":
-            check_stats(ctx, f, f"after step {step}", counting=True)
+            # the derived statistics are read after every call in some histories and only after every 2nd..5th in others (a value that
+            # is remembered between two reads must still be right when several changes happened in between)
+            if step % stats_every == 0:
+                check_stats(ctx, f, f"after step {step} (statistics read every {stats_every} steps)", counting=True)
     case.nontrivial = removes > 0
 
 
@@ -260,6 +264,8 @@ def _cuckoo_run(ctx, rng, case, failing):
     cfg = ck.gen_cfg(rng)
     if failing:
         cfg.counting = rng.random() < 0.7
+        if cfg.counting and cfg.err_bits and cfg.err_bits > 32:
+            cfg.by_error_rate(32)  # the counting filter cannot hold fingerprints wider than its 32-bit cells
         cfg.auto_expand = rng.random() < 0.8
         cfg.capacity = rng.choice([1, 2, 2, 3, 4])
         cfg.bucket_size = rng.choice([1, 1, 2])
